@@ -13,6 +13,21 @@ class C10(ProgProp):
                   'success no client can be registered; non-trivial = every scenario; distinct = distinct '
                   '(model, cfg, slot)')
 
+    def gen_case(self, rng):
+        # every second program: three or more exposed requires ports whose semantics alternate in
+        # declaration order (MTS, STS, MTS, …) — FinalConstruct must still check each of them
+        self._k = getattr(self, '_k', 0) + 1
+        if self._k % 2:
+            return super().gen_case(rng)
+        for _ in range(400):
+            c = super().gen_case(rng)
+            req = [p['name'] for p in c['_info']['ports'] if p['dir'] == 'requires' and not p['injected']]
+            if len(req) >= 3 and not c['cfg']['multiclient']:
+                sts = req[1::2]
+                c['cfg']['ports']['rsts'], c['cfg']['ports']['rmts'] = {'names': sts}, {'w': 'remaining'}
+                return c
+        return c
+
     def scenarios(self, case, spec):
         info = case['_info']
         origin = case['cfg']['origin']
